@@ -80,4 +80,9 @@ impl ArenaAllocator for Bump {
     }
 
     fn finish(&mut self) {}
+
+    #[cfg(starlark_verif)]
+    fn verif_leak(&mut self) {
+        std::mem::forget(std::mem::take(self));
+    }
 }
